@@ -1222,6 +1222,17 @@ impl<'a> Exec<'a> {
         };
         // C03a quiescence: every operation whose last poll returned Pending
         // and whose final completion this call consumed must have been woken.
+        // (C09: the caller has to get to see the outcome of the last attempt
+        // of a re-issued operation: the same check for operations that were
+        // restarted.)
+        if self.oracles.c09 && !self.oracles.c03 {
+            for &i in &newly {
+                let op = &self.ops[i];
+                if op.attempts > 1 && op.phase == Phase::Submitted && op.polled && op.fut.is_some() && op.waker.wakes() <= op.wakes_at_poll {
+                    self.violation("C09:restart-not-woken", format!("Ring::poll consumed the final completion of the re-issued operation {i} ({}) but the waker of its most recent poll (the one that re-issued it) was not invoked: the caller never sees the outcome of the last attempt", self.ops[i].st.kind.name()));
+                }
+            }
+        }
         if self.oracles.c03 {
             for &i in &newly {
                 let op = &self.ops[i];
